@@ -24,7 +24,7 @@ def search_hint(res, what):
 
 
 def _run(res, work):
-    ok, tlog = common.regen_tables()
+    ok, tlog = common.regen_tables("C09")
     translator_broken = not ok
     lean = common.lean_obligations("C09", res.tier)
     ok_h, hlog = common.cargo_build_harness(["c09"])
